@@ -495,7 +495,7 @@ WRAP_LINES = ['foo', 'bar baz', '', '   ', '  indented  ', '*3', '$$', 'a>b+c', 
 # (abbreviation, has implicit repeater, where the text goes: list of (tag carrying the text, prefix) per copy)
 WRAP_TPL = [('ul>li*', True), ('ul>li*>a', True), ('ul>li[title=$#]*>b{x $#}', True), ('p*+em', True), ('div>p', False), ('x', False), ('div>span*2', False), ('(tr>td)+b', False),
             ('ul>li*>span*2{$#}', True), ('ul>li*>(b{$#}+i)*2', True), ('hr*', True), ('div>hr/', False),
-            ('ul>li*{Note ${1}: }', True), ('ul>li*>a{${1}link: }', True)]
+            ('ul>li*{Note: ${1}}', True), ('ul>li*>a{link ${1}}', True)]
 
 
 def gen_w(rnd, n):
@@ -632,8 +632,8 @@ def oracle_C04_wrap(case, o):
         elif k == 3: want = ''.join('<p>%s</p>' % l for l in lines) + '<em></em>'
         elif k == 8: want = '<ul>' + ''.join('<li><span>%s</span><span>%s</span></li>' % (l, l) for l in lines) + '</ul>'
         elif k == 9: want = '<ul>' + ''.join('<li><b>%s</b><i></i><b>%s</b><i></i></li>' % (l, l) for l in lines) + '</ul>'
-        elif k == 12: want = '<ul>' + ''.join('<li>Note : %s</li>' % l for l in lines) + '</ul>'
-        elif k == 13: want = '<ul>' + ''.join('<li><a href="">link: %s</a></li>' % l for l in lines) + '</ul>'
+        elif k == 12: want = '<ul>' + ''.join('<li>Note: %s</li>' % l for l in lines) + '</ul>'
+        elif k == 13: want = '<ul>' + ''.join('<li><a href="">link %s</a></li>' % l for l in lines) + '</ul>'
         else: want = ''.join('<hr>%s</hr>' % l for l in lines)
         if not lines:
             # no non-blank line: zero copies of the repeated element
